@@ -1,5 +1,6 @@
 import BddVerif.Lemmas.Valuation
 import BddVerif.Lemmas.ValuationBdd
+import BddVerif.Lemmas.ValuationCanon
 import BddVerif.Lemmas.Cmp
 import BddVerif.Lemmas.CountSupport
 import BddVerif.Lemmas.C02Built
@@ -140,6 +141,18 @@ theorem valuation_bdd_spec (v : TotalVal) (hv : v.length ≤ 65535) :
   unfold den
   rw [h.sem w]
   exact ⟨fun h' i hi => h' i (Nat.zero_le _) hi, fun h' i _ hi => h' i hi⟩
+
+/-- `Bdd::from(valuation)` is the library-wide canonical array of the function "agrees with `v` on every
+    variable": exactly what the reference builder `canon` lays out (DFS post-order, high child first), for
+    every valuation of every length -/
+theorem valuation_bdd_canonical (v : TotalVal) :
+    TotalVal.toBdd v = canon (TotalVal.numVars v) (TotalVal.agreeFrom v (TotalVal.numVars v) 0) ∧
+    Canonical (TotalVal.toBdd v) ∧
+    ∀ w : Nat → Bool, TotalVal.agreeFrom v (TotalVal.numVars v) 0 w = true ↔
+      ∀ i, i < TotalVal.numVars v → w i = v.getD i false :=
+  ⟨TotalVal.toBdd_eq_canon v, TotalVal.toBdd_canonical v,
+   fun w => (TotalVal.agreeFrom_iff v _ 0 w).trans
+     ⟨fun h i hi => h i (Nat.zero_le _) (by omega), fun h i _ hi => h i (by omega)⟩⟩
 
 /-- the conversion to a Bdd loses nothing: different valuations give different Bdds -/
 theorem valuation_bdd_inj (v v' : TotalVal) (hv : v.length ≤ 65535) (hv' : v'.length ≤ 65535)
@@ -301,6 +314,10 @@ example : PartialVal.extends_ [some true, some false] [none, some false, none] =
 
 /-- `Bdd::from` of `101`: hypotheses of `valuation_bdd_spec` hold, and the array is the chain -/
 example : TotalVal.toBdd [true, false, true] =
+    #[⟨3, 0, 0⟩, ⟨3, 1, 1⟩, ⟨2, 0, 1⟩, ⟨1, 2, 0⟩, ⟨0, 0, 3⟩] := by decide
+
+/-- `valuation_bdd_canonical` on `101`: the chain is the canonical array, computed by the reference builder -/
+example : canon 3 (TotalVal.agreeFrom [true, false, true] 3 0) =
     #[⟨3, 0, 0⟩, ⟨3, 1, 1⟩, ⟨2, 0, 1⟩, ⟨1, 2, 0⟩, ⟨0, 0, 3⟩] := by decide
 
 /-- comparators on concrete level-well-formed operands: `x0 ∧ x2 ⇒ x0` strictly -/
